@@ -459,6 +459,7 @@ class Output(InputOutput):
     def clear_signature(self):
         self.channel = None
         self.signable.clear_signature()
+        self.script.generate()
 
     def set_channel_private_key(self, private_key: PrivateKey):
         self.private_key = private_key
